@@ -345,6 +345,8 @@ def gen_variant(rng, prog):
     if classify_wf(prog) == 'min>max-or-max=0':
         for c in conv.values():
             c['rest'] = True
+    for gid, sc in prog.get('force', {}).get('cond', {}).items():
+        cond[gid] = sc
     return {'arrays': arrs, 'cond': cond, 'conv': conv,
             't': rng.choice([0.0, 0.5, 1.25]), 'dt': rng.choice([0.125, 0.0625])}
 
@@ -974,6 +976,9 @@ def run_workers(items, work, nproc, timeout=600):
             log = open(of + '.log', 'rb').read().decode(errors='replace')
             if rc == 0 and os.path.exists(of):
                 outs[k] = json.load(open(of))
+                if 'compile_error' in outs[k]:
+                    m = log.find('Error compiling Cython file')
+                    outs[k]['compile_error'] += ' | ' + (log[m:m + 1200] if m >= 0 else log[-1200:])
             else:
                 outs[k] = {'idx': k, 'error': 'worker exit code %s: %s' % (rc, log[-3000:])}
             del running[k]
@@ -998,7 +1003,7 @@ def run_batch(R, items, work, nproc, tag0=0):
             R.prop_fail(fail_key(prog, 'does-not-compile'),
                         {'prog': prog, 'variant': variants[0]},
                         'the program is generated, compiled and run in the documented order',
-                        {'compile_error': o['compile_error'], 'generated_tail': o['code_tail']})
+                        {'compile_error': o['compile_error']})
             R.case(json.dumps(prog, sort_keys=True), True, None)
             continue
         for vi, (var, res) in enumerate(zip(variants, o['results'])):
@@ -1063,6 +1068,21 @@ def corpus():
               'eqs': [E(3, 1, [0, 2], 'ip,lp,pl', 5 / GRID)]},
              {'attrs': A(stop=['k', 1], iter=True, min=2, max=3), 'eqs': [E(4, 2, [1], 'pi,la,rd')]}]},
         {'kind': 'leaf', 'attrs': A(), 'eqs': [E(5, 0, [1, 2], 'lp')]}]})
+    # 5. a group with sub-groups whose condition is false: nothing of it may run
+    progs.append({'arrays': ['a0', 'a1'], 'domain': 'none', 'flat': False,
+                  'force': {'cond': {'0': {'v': [False, True], 'rest': False}}},
+                  'tops': [
+        {'kind': 'parent', 'attrs': A(cond=True, post=True, nnps=True),
+         'subs': [
+             {'attrs': A(), 'eqs': [E(1, 0, [1], 'in,lp')]},
+             {'attrs': A(cond=True, real=False), 'eqs': [E(2, 1, [0], 'lp,pl', 3 / GRID)]}]},
+        {'kind': 'leaf', 'attrs': A(pre=True), 'eqs': [E(3, 0, [0, 1], 'lp')]}]})
+    # 6. iterated group with sub-groups, own pre/post, sub-group conditions
+    progs.append({'arrays': ['a0'], 'domain': 'none', 'flat': False, 'tops': [
+        {'kind': 'parent', 'attrs': A(iter=True, min=2, max=3, pre=True, post=True),
+         'subs': [
+             {'attrs': A(cond=True), 'eqs': [E(1, 0, [0], 'in,lp')]},
+             {'attrs': A(pre=True, post=True), 'eqs': [E(2, 0, [], 'lp,rd')]}]}]})
     return progs
 
 
@@ -1106,8 +1126,14 @@ def main():
         rp = json.load(open(a.replay))
         case = rp['case']
         run_batch(R, [(case['prog'], [case['variant']])], a.work, 1)
-        print(json.dumps({'property_failures': R.d['property_failures'][:3],
-                          'disagreements': R.d['disagreements'][:3]}, indent=1)[:6000])
+        for f in R.d['property_failures'][:3]:
+            print('key     :', f['key'])
+            print('demand  :', json.dumps(f['demand'])[:1500])
+            print('observed:', json.dumps(f['observed'])[:1500])
+        for dgr in R.d['disagreements'][:2]:
+            print('model   :', json.dumps(dgr['model'])[:800])
+            print('impl    :', json.dumps(dgr['impl'])[:800])
+        print('replay: %d property failure(s) on the real code' % len(R.d['property_failures']))
         sys.exit(1 if R.d['property_failures'] else 0)
     rng = random.Random(a.seed * 7919 + 303)
     quick = a.tier == 'quick'
